@@ -34,6 +34,37 @@ def setup():
     return 2 if bad else 0
 
 
+def generic_replay(mod, pid, path):
+    """Re-run the check with the seed and tier recorded in the replay file and report whether the
+    recorded violation (same signature) shows up again.  The file itself holds the concrete case
+    (input text, printed output, expected/observed values) for inspection."""
+    import json
+    with open(path) as f:
+        rec = json.load(f)
+    print("replaying %s: %s" % (rec.get("signature"), rec.get("what")))
+    case = rec.get("case") or {}
+    for k in ("text", "printed"):
+        if isinstance(case, dict) and isinstance(case.get(k), str):
+            print("---- %s ----" % k)
+            print(case[k][:2000])
+    os.environ["VERIF_SEED"] = str(rec.get("seed", 0))
+    from harness import common
+    hits = []
+    orig = common.Check.violation
+
+    def spy(self, sig, what, replay=None):
+        if sig == rec.get("signature"):
+            hits.append(sig)
+        return orig(self, sig, what, replay)
+    common.Check.violation = spy
+    try:
+        mod.run(rec.get("tier", "quick"))
+    finally:
+        common.Check.violation = orig
+    print("REPRODUCED" if hits else "not reproduced on the current tree")
+    return 1 if hits else 0
+
+
 def main(argv):
     if len(argv) < 2:
         print(__doc__)
@@ -57,7 +88,9 @@ def main(argv):
     try:
         mod = importlib.import_module("harness.checks." + pid.lower())
         if replay:
-            return mod.replay(replay)
+            if hasattr(mod, "replay"):
+                return mod.replay(replay)
+            return generic_replay(mod, pid, replay)
         return mod.run(tier)
     except (common.MachineryFailure, Exception) as ex:  # noqa: BLE001
         traceback.print_exc()
